@@ -100,6 +100,12 @@ def _v2w_exact(vec, tol):
     return B.variance_to_weights_exact(vals, tol)
 
 
+def _same_nested(a, b):
+    if isinstance(a, (tuple, list)):
+        return isinstance(b, (tuple, list)) and len(a) == len(b) and all(_same_nested(x, y) for x, y in zip(a, b))
+    return np.array_equal(np.asarray(a), np.asarray(b), equal_nan=True)
+
+
 def run(case, rec):
     import verde as vd
 
@@ -193,6 +199,14 @@ def run(case, rec):
     got = call(rec, bm.filter, c_arg, d_arg, w_arg)
     after = [a.tobytes() for a in [e, n] + data + (wts or [])]
     rec.check(before == after, "BlockMean.filter modified its input arrays")
+    if not case["w"]:
+        # "no weights" spelled as one None per component (what train_test_split hands back): same behaviour as None (seed C10-7)
+        got_n = call(rec, bm.filter, c_arg, d_arg, tuple([None] * ncomp))
+        if case["unc"]:
+            rec.check(raised(got_n) and isinstance(got_n.exc, ValueError), "uncertainty=True with weights=%r must raise ValueError, got %r"
+                      % (tuple([None] * ncomp), got_n if raised(got_n) else type(got_n)))
+        else:
+            rec.check(raised(got) == raised(got_n) and (raised(got) or _same_nested(got, got_n)), "weights=(None, ...) gives a result different from weights=None")
     if case["unc"] and not case["w"]:
         rec.trivial = True
         rec.cls("refusal:uncertainty-without-weights")
